@@ -7,7 +7,7 @@
    value is as a function of the object's mask and contents -- is universally quantified everywhere.
    [faithful] is the policy of /repo, [finding_class] the recorded finding D8. *)
 From Coq Require Import ZArith List Bool.
-From PAV Require Import Base.Res Model.C11 Proofs.C11.
+From PAV Require Import Base.Res Model.C11 Model.C11g Proofs.C11 Proofs.C11g.
 Import ListNotations.
 
 (* ---- PART A: histories of constructions, derivations, reads and queries -------------------------------------- *)
@@ -95,6 +95,16 @@ Theorem C11_purity_refuted_without_D12_repair :
   observations qf_sum policy_D12 hist_D12 <> spec_observations qf_sum hist_D12
   /\ map (hget (st_heap (final qf_sum policy_D12 hist_D12))) (st_inputs (final qf_sum policy_D12 hist_D12)) <> news hist_D12.
 Proof. exact purity_refuted_D12_revert. Qed.
+(* Kernel2D(values=.., normalize=True) / psf.normalized / SimulatorImaging(psf=..) normalise in place: the eager copy of
+   convert_array_2d is what keeps the caller's kernel (a slim ndarray, or the Kernel2D `normalized` is read on) as it was *)
+Theorem C11_purity_refuted_normalize_without_copy :
+  observations qf_norm policy_D7 hist_norm_in <> spec_observations qf_norm hist_norm_in /\
+  map (hget (st_heap (final qf_norm policy_D7 hist_norm_in))) (st_inputs (final qf_norm policy_D7 hist_norm_in)) <> news hist_norm_in /\
+  observations qf_norm policy_D7 hist_norm_obj <> spec_observations qf_norm hist_norm_obj /\
+  observations qf_norm faithful hist_norm_in = spec_observations qf_norm hist_norm_in /\
+  observations qf_norm faithful hist_norm_obj = spec_observations qf_norm hist_norm_obj /\
+  nth 1 (observations qf_norm faithful hist_norm_in) bad = Ok [20; 20]%Z.
+Proof. exact purity_refuted_normalize_without_copy. Qed.
 Theorem C11_refutations_and_finding_class :
   avoids_findings qf_sum hist_D8 = false /\
   avoids_findings qf_sum hist_D7 = true /\ avoids_findings qf_mm hist_D9 = false /\
@@ -134,6 +144,76 @@ Theorem C11_rng_unseeded_depends_on_state :
   <> fst (poisson_noise lcg_init lcg_draw lcg_randint 2%Z (-1)%Z [4; 4; 4]%Z).
 Proof. exact rng_unseeded_depends_on_state. Qed.
 
+(* ---- PART D: object graphs as graphs of quantities (Model/C11g.v) ---------------------------------------------------
+   [ev] evaluates a node as the code does: dependencies left to right through the same mechanism, then the body, which builds a
+   new array, returns the array of a dependency, or assigns into the array it received from a dependency; cached_property results
+   are stored in the cache and returned by reference.  [gspec] is the pure value of the node.  [gdisc g] is read off the graph:
+   dependencies point backwards, and a body assigns only into an array that no cache entry and no caller holds (the result of
+   a plain property that built it, possibly through other such properties), or into its own copy. *)
+
+(* every read, after any sequence of reads of any quantities, reports the pure value of its node *)
+Theorem C11_graph_reads_pure : forall (g : graph) (vf : vfn),
+  gdisc g = true -> forall reads : list nat, gobservations g vf reads = map (gspec g vf) reads.
+Proof. exact graph_reads_pure. Qed.
+
+(* ... the arrays the caller handed over (and every cell that existed before the first read) are never written *)
+Theorem C11_graph_inputs_kept : forall (g : graph) (vf : vfn),
+  gdisc g = true -> forall (reads : list nat) (c0 : cell), (c0 < length (gs_heap (ginit g vf)))%nat ->
+  hget (gs_heap (gfinal g vf reads)) c0 = hget (gs_heap (ginit g vf)) c0.
+Proof. exact graph_inputs_kept. Qed.
+
+(* ... and what a read reports does not depend on which reads were made before it, how many, in which order *)
+Theorem C11_graph_order_independence : forall (g : graph) (vf : vfn),
+  gdisc g = true -> forall (h1 h2 : list nat) (n : nat),
+  last (gobservations g vf (h1 ++ [n])) [] = last (gobservations g vf (h2 ++ [n])) [].
+Proof. exact graph_order_independence. Qed.
+
+(* the write lists are sound for EVERY graph (no discipline assumed): a cell that exists before a read and holds something else
+   after it is in the read's write list -- so comparing the entries that changed on the real objects with the write lists
+   validates the graph *)
+Theorem C11_graph_effect_summaries_are_sound : forall (g : graph) (vf : vfn) (st : gstate) (n : nat) (c0 : cell),
+  (c0 < length (gs_heap st))%nat ->
+  hget (gs_heap (fst (fst (gread g vf st n)))) c0 <> hget (gs_heap st) c0 ->
+  In c0 (snd (gread g vf st n)).
+Proof. exact graph_effects_sound. Qed.
+
+(* the graphs of the library: a Delaunay / Voronoi mesh with its mapper and valued mapper; FitImaging -> Imaging -> inversion ->
+   mapper (mapping and w-tilde formalisms); the derivation chains ds -> apply_mask / apply_over_sampling -> apply_noise_scaling;
+   Interferometer -> inversion through the factory.
+   Each satisfies the discipline, hence is pure for every read order and every body function *)
+Theorem C11_library_graphs_disciplined :
+  gdisc (g_mesh false false) = true /\ gdisc (g_mesh true false) = true /\ gdisc g_fit = true /\
+  gdisc (g_chain false) = true /\ gdisc g_interf = true /\ gdisc g_wtilde = true.
+Proof. exact instances_disciplined. Qed.
+Theorem C11_library_graph_reads_pure : forall (k : nat) (vf : vfn) (reads : list nat),
+  (k < 6)%nat -> gobservations (ginstance k) vf reads = map (gspec (ginstance k) vf) reads.
+Proof. exact instance_reads_pure. Qed.
+
+(* curvature_reg_matrix is, in those graphs, a node that builds a new array and deletes the curvature_matrix entry; the code adds INTO
+   the cached curvature matrix and deletes the entry (PART B): the two machines report the same values on every sequence of
+   curvature_matrix / curvature_reg_matrix reads, with or without preloads *)
+Theorem C11_partB_agrees_with_graph_node : forall (add : adder) (F H D U : arr) (pre : ipre) (qs : list iq),
+  forallb is_matrix_read qs = true ->
+  irun add ifaithful pre F H D U (ist0 F D) qs = gobservations g_crm (vf_crm add F H) (map node_of_iq qs).
+Proof. exact partB_agrees_with_graph_node. Qed.
+
+(* the two defect classes leave the discipline and are order dependent: `voronoi_pixel_areas` as a cached_property (its consumers
+   edit the array they receive), and `noise_map.native` returning the stored object (apply_noise_scaling edits it) *)
+Theorem C11_defect_graphs_not_disciplined :
+  gdisc (g_mesh false true) = false /\ gdisc (g_mesh true true) = false /\ gdisc (g_chain true) = false.
+Proof. exact mutant_graphs_not_disciplined. Qed.
+Theorem C11_mesh_areas_cached_refuted :
+  gobservations (g_mesh true true) vf_mesh [5; 4]%nat <> map (gspec (g_mesh true true) vf_mesh) [5; 4]%nat /\
+  gobservations (g_mesh true true) vf_mesh [7; 5]%nat <> map (gspec (g_mesh true true) vf_mesh) [7; 5]%nat /\
+  last (gobservations (g_mesh true true) vf_mesh [5; 7]%nat) [] <> last (gobservations (g_mesh true true) vf_mesh [7]%nat) [] /\
+  gobservations (g_mesh true false) vf_mesh [5; 4; 7; 5; 4]%nat = [[6; 4; 6]; [-1; 4; 9]; [0; 4; 9]; [6; 4; 6]; [-1; 4; 9]]%Z.
+Proof. exact mesh_areas_cached_refuted. Qed.
+Theorem C11_chain_native_alias_refuted :
+  gobservations (g_chain true) vf_chain [20; 15; 20]%nat <> map (gspec (g_chain true) vf_chain) [20; 15; 20]%nat /\
+  hget (gs_heap (gfinal (g_chain true) vf_chain [15%nat])) 1%nat <> hget (gs_heap (ginit (g_chain true) vf_chain)) 1%nat /\
+  gobservations (g_chain false) vf_chain [20; 15; 20]%nat = map (gspec (g_chain false) vf_chain) [20; 15; 20]%nat.
+Proof. exact chain_native_alias_refuted. Qed.
+
 (* ---- non-vacuity ------------------------------------------------------------------------------------------------ *)
 (* a history with a native construction under a mask, a dataset, cached reads, arithmetic, slicing, trimming, a valued
    mapper with an all-False pixel mask and both inversion factories ([example_history] in Proofs/C11.v): it respects the discipline under the code's policy,
@@ -143,7 +223,16 @@ Example C11_hyps_satisfiable :
   safe disciplined = true /\
   nth 4 (observations qf_sum faithful example_history) bad = Ok [50; 1]%Z /\
   nth 11 (observations qf_sum faithful example_history) bad = Ok [13; 7]%Z /\
-  derivations [ORead 0 1; OCopy 0; OPlain 1 2] = derivations [OCopy 0; ORead 1 3; ORead 1 3].
+  derivations [ORead 0 1; OCopy 0; OPlain 1 2] = derivations [OCopy 0; ORead 1 3; ORead 1 3] /\
+  (* x.native of the slim object 0, then a kernel built from it with normalize=True: the source keeps its contents *)
+  nth 25 (observations qf_sum faithful example_history) bad = Ok [20; 9]%Z /\
+  nth 26 (observations qf_sum faithful example_history) bad = Ok [5; 0; 7; 8]%Z.
+Proof. vm_compute. repeat split. Qed.
+(* PART D: the discipline holds of the library's graphs (theorem above); reads on the mesh graph give non-trivial values in any order *)
+Example C11_graph_hyps_satisfiable :
+  gdisc (g_mesh true false) = true /\
+  gobservations (g_mesh true false) vf_mesh [7; 5; 6; 4; 7]%nat = [[0; 4; 9]; [6; 4; 6]; [6]; [-1; 4; 9]; [0; 4; 9]]%Z /\
+  gobservations g_fit (fun n vs => [Z.of_nat n; Z.of_nat (length vs)]) [28; 12; 16; 15]%nat = [[28; 5]; [12; 2]; [15; 2]; [15; 2]]%Z.
 Proof. vm_compute. repeat split. Qed.
 
 Print Assumptions C11_discipline_implies_purity.
@@ -163,9 +252,20 @@ Print Assumptions C11_purity_refuted_without_D10_repair.
 Print Assumptions C11_purity_refuted_without_D11_repair.
 Print Assumptions C11_purity_refuted_without_D12_repair.
 Print Assumptions C11_refutations_and_finding_class.
+Print Assumptions C11_purity_refuted_normalize_without_copy.
 Print Assumptions C11_inversion_reads_pure.
 Print Assumptions C11_inversion_preload_alias_refuted.
 Print Assumptions C11_inversion_entry_kept_refuted.
 Print Assumptions C11_inversion_preload_diag_alias_refuted_without_D20_repair.
 Print Assumptions C11_rng_seeded_is_state_independent.
 Print Assumptions C11_rng_unseeded_depends_on_state.
+Print Assumptions C11_graph_reads_pure.
+Print Assumptions C11_graph_inputs_kept.
+Print Assumptions C11_graph_order_independence.
+Print Assumptions C11_graph_effect_summaries_are_sound.
+Print Assumptions C11_library_graphs_disciplined.
+Print Assumptions C11_library_graph_reads_pure.
+Print Assumptions C11_partB_agrees_with_graph_node.
+Print Assumptions C11_defect_graphs_not_disciplined.
+Print Assumptions C11_mesh_areas_cached_refuted.
+Print Assumptions C11_chain_native_alias_refuted.
